@@ -1,42 +1,85 @@
 import NetqasmVerif.Driver.Json
 import NetqasmVerif.Model.Hub
+import NetqasmVerif.Model.ThreadSocket
 open Lean
 namespace NQ.Drv
 open NQ.Hub
 
-def opOfJson (j : Json) : Option Op :=
-  match jField? j "c", jField? j "s", jField? j "r", jField? j "d" with
-  | some v, _, _, _ => do
+def wireOfJson (j : Json) : Option Wire :=
+  match jNat? j with
+  | some n => some (.text n)
+  | none => do
+      match ← jNats? j with
+      | [h, p] => some (.json h p)
+      | _ => none
+
+def wireJ : Wire → Json
+  | .text s => toJson s
+  | .json h p => ofNats [h, p]
+
+def wiresJ (l : List Wire) : Json := Json.arr (l.map wireJ).toArray
+
+/-- socket-level operations, as the harness sends them -/
+def sopOfJson (j : Json) : Option TSock.SOp :=
+  match jField? j "c", jField? j "s", jField? j "ss", jField? j "r", jField? j "rs", jField? j "d", jField? j "w",
+        jField? j "bs", jField? j "br" with
+  | some v, _, _, _, _, _, _, _, _ => do
       match ← jNats? v with
       | [rn, id, cb] => some (.connect rn id (cb != 0))
       | _ => none
-  | _, some v, _, _ => do
-      match ← jNats? v with
-      | [rn, id, m] => some (.send rn id m)
+  | _, some v, _, _, _, _, _, _, _ => do
+      match (← jArr? v).toList with
+      | [rn, id, w] => some (.send (← jNat? rn) (← jNat? id) (← wireOfJson w))
       | _ => none
-  | _, _, some v, _ => do
+  | _, _, some v, _, _, _, _, _, _ => do
+      match ← jNats? v with
+      | [rn, id, h, p] => some (.sendStructured rn id h p)
+      | _ => none
+  | _, _, _, some v, _, _, _, _, _ => do
       match ← jNats? v with
       | [rn, id, b] => some (.recv rn id (b != 0))
       | _ => none
-  | _, _, _, some v => do
+  | _, _, _, _, some v, _, _, _, _ => do
+      match ← jNats? v with
+      | [rn, id, b] => some (.recvStructured rn id (b != 0))
+      | _ => none
+  | _, _, _, _, _, some v, _, _, _ => do
       match ← jNats? v with
       | [rn, id] => some (.disconnect rn id)
       | _ => none
-  | _, _, _, _ => none
+  | _, _, _, _, _, _, some v, _, _ => do
+      match ← jNats? v with
+      | [rn, id] => some (.wait rn id)
+      | _ => none
+  | _, _, _, _, _, _, _, some v, _ => do          -- [id, wire, r, rs…]
+      match (← jArr? v).toList with
+      | id :: w :: r :: rs => some (.bsend (← jNat? r) (← rs.mapM jNat?) (← jNat? id) (← wireOfJson w))
+      | _ => none
+  | _, _, _, _, _, _, _, _, some v => do          -- [id, block, r, rs…]
+      match ← jNats? v with
+      | id :: b :: r :: rs => some (.brecv r rs id (b != 0))
+      | _ => none
+  | _, _, _, _, _, _, _, _, _ => none
 
 def keyJ (k : Key) : Json := ofNats [k.1, k.2.1, k.2.2]
 
-def opKey (tid : Nat) : Op → Key
-  | .connect rn id _ => (tid, rn, id)
-  | .send rn id _ => (tid, rn, id)
-  | .recv rn id _ => (tid, rn, id)
-  | .disconnect rn id => (tid, rn, id)
+def pollRemotes : RMode → List Nat
+  | .poll all _ => all
+  | .pollOnce rem => rem
+  | _ => []
+
+def opKeys (tid : Nat) : Op → List Key
+  | .connect rn id _ => [(tid, rn, id)]
+  | .send rn id _ more => (rn :: more).map fun r => (tid, r, id)
+  | .recv rn id mode _ => (rn :: pollRemotes mode).map fun r => (tid, r, id)
+  | .disconnect rn id => [(tid, rn, id)]
+  | .wait rn id => [(tid, rn, id)]
 
 def dedup (l : List Key) : List Key := l.foldl (fun acc k => if acc.contains k then acc else acc ++ [k]) []
 
 def keysOf (progs : List (List Op)) : List Key :=
   dedup ((List.range progs.length).flatMap fun t =>
-    (progs.getD t []).flatMap fun op => [opKey t op, rkey (opKey t op)])
+    (progs.getD t []).flatMap fun op => (opKeys t op).flatMap fun k => [k, rkey k])
 
 def pcJ : Pc → Json
   | .fin => Json.arr #["fin"]
@@ -46,16 +89,16 @@ def pcJ : Pc → Json
   | .cRemote k => Json.arr #["cRemote", keyJ k]
   | .cWaitOpen k => Json.arr #["cWaitOpen", keyJ k]
   | .cWaitRemote k => Json.arr #["cWaitRemote", keyJ k]
-  | .sCheck k _ => Json.arr #["sCheck", keyJ k]
-  | .sCb k _ => Json.arr #["sCb", keyJ k]
-  | .sCall k _ => Json.arr #["sCall", keyJ k]
-  | .sLock k _ => Json.arr #["sLock", keyJ k]
-  | .sAppend k _ => Json.arr #["sAppend", keyJ k]
-  | .rLock k _ => Json.arr #["rLock", keyJ k]
-  | .rRead k _ => Json.arr #["rRead", keyJ k]
-  | .rLen k _ => Json.arr #["rLen", keyJ k]
-  | .rLock2 k => Json.arr #["rLock2", keyJ k]
-  | .rPop k => Json.arr #["rPop", keyJ k]
+  | .sCheck k _ _ => Json.arr #["sCheck", keyJ k]
+  | .sCb k _ _ => Json.arr #["sCb", keyJ k]
+  | .sCall k _ _ => Json.arr #["sCall", keyJ k]
+  | .sLock k _ _ => Json.arr #["sLock", keyJ k]
+  | .sAppend k _ _ => Json.arr #["sAppend", keyJ k]
+  | .rLock k _ _ => Json.arr #["rLock", keyJ k]
+  | .rRead k _ _ => Json.arr #["rRead", keyJ k]
+  | .rLen k _ _ => Json.arr #["rLen", keyJ k]
+  | .rLock2 k _ => Json.arr #["rLock2", keyJ k]
+  | .rPop k _ => Json.arr #["rPop", keyJ k]
   | .dLock k => Json.arr #["dLock", keyJ k]
   | .dLostGet k => Json.arr #["dLostGet", keyJ k]
   | .dLostCall k => Json.arr #["dLostCall", keyJ k]
@@ -65,19 +108,26 @@ def pcJ : Pc → Json
   | .dRemRm k => Json.arr #["dRemRm", keyJ k]
   | .dPopRecv k => Json.arr #["dPopRecv", keyJ k]
   | .dPopLost k => Json.arr #["dPopLost", keyJ k]
+  | .wCheck k => Json.arr #["wCheck", keyJ k]
 
-def resJ : Res → Json
+/-- socket-level view of a result (`TSock.view`), as the harness observes it on the real socket objects -/
+def sresJ : TSock.SRes → Json
   | .connected k => Json.arr #["connected", keyJ k]
-  | .sent k m => Json.arr #["sent", keyJ k, toJson m]
-  | .connErr k m => Json.arr #["connErr", keyJ k, toJson m]
-  | .got k m => Json.arr #["got", keyJ k, toJson m]
+  | .sent k w => Json.arr #["sent", keyJ k, wireJ w]
+  | .notConnected k => Json.arr #["connErr", keyJ k]
+  | .gotStr k w => Json.arr #["gotStr", keyJ k, wireJ w]
+  | .gotStructured k h p => Json.arr #["gotStructured", keyJ k, ofNats [h, p]]
+  | .decodeError k _ => Json.arr #["decodeError", keyJ k]
   | .empty k => Json.arr #["empty", keyJ k]
   | .crash k => Json.arr #["crash", keyJ k]
   | .disconnected k => Json.arr #["disconnected", keyJ k]
+  | .waited k => Json.arr #["waited", keyJ k]
+
+def resJ (r : Res) : Json := sresJ (TSock.view r)
 
 def setJ (keys : List Key) (f : Key → Bool) : Json := Json.arr ((keys.filter f).map keyJ).toArray
 def mapJ (keys : List Key) (f : Key → List Msg) : Json :=
-  Json.arr ((keys.filter (fun k => !(f k).isEmpty)).map (fun k => Json.arr #[keyJ k, ofNats (f k)])).toArray
+  Json.arr ((keys.filter (fun k => !(f k).isEmpty)).map (fun k => Json.arr #[keyJ k, wiresJ (f k)])).toArray
 
 def snapJ (keys : List Key) (n : Nat) (s : State) (ok : Bool) : Json :=
   Json.mkObj [
@@ -91,11 +141,12 @@ def snapJ (keys : List Key) (n : Nat) (s : State) (ok : Bool) : Json :=
     ("sent", mapJ keys s.sent), ("deliv", mapJ keys s.delivered),
     ("enabled", ofNats ((List.range n).filter (fun t => (step s t).isSome)))]
 
-/-- `hub.run` {progs: [[op,…],…], sched: [tid,…]} ↦ {"init": snapshot, "steps": [snapshot after each step]} -/
+/-- `hub.run` {progs: [[SOCKET-LEVEL op,…],…], sched: [tid,…]} (compiled with `TSock.compileProg`) ↦ {"init": snapshot, "steps": [snapshot after each step]} -/
 def handleHub (op : String) (j : Json) : Option Json :=
   if op == "hub.run" then do
     let ps ← (jField? j "progs").bind jArr?
-    let progs ← ps.toList.mapM (fun p => do let a ← jArr? p; a.toList.mapM opOfJson)
+    let sprogs ← ps.toList.mapM (fun p => do let a ← jArr? p; a.toList.mapM sopOfJson)
+    let progs := sprogs.map TSock.compileProg
     let sched ← (jField? j "sched").bind jNats?
     let keys := keysOf progs
     let n := progs.length
